@@ -20,6 +20,7 @@ import (
 	"io"
 	"math/rand"
 	"net"
+	"net/http/httptest"
 	"net/url"
 	"os"
 	"path/filepath"
@@ -82,6 +83,10 @@ var vc04Routes = []vc04Route{
 	{32, "POST", "/internal/vcr/v2/issuer/vc"}, // idem
 	{33, "POST", "/public"},
 	{34, "POST", "/public/:id"},
+	{35, "PUT", "/internal/vdr/v1/did/:did"},                // rate-limited (PUT row of the table)
+	{36, "GET", "/internal/vdr/v2/subject"},                 // a POST here is a 405 whose node path IS in the limiter's POST row
+	{37, "POST", "/internal/vdr/v2/subject/:sid/service"},   // the table says :id — c.Path() differs, not limited
+	{38, "POST", "/internal/didman/v1/did/:did/endpoint"},   // rate-limited, parameter in the middle
 }
 
 // request headers that proxies, browsers and frameworks give a meaning to: none of them may influence the guard
@@ -251,6 +256,9 @@ type vc04Engine struct {
 	shutdown func()
 }
 
+// core.ServerConfig handed to Configure by the next vc04StartEngine call (nil: the defaults — strict mode, did:web + did:nuts)
+var vc04NextServerCfg *core.ServerConfig
+
 func vc04StartEngine(t *testing.T, name string, sameAddr, auth bool, keysFile, aud string, routes []vc04Route) *vc04Engine {
 	e := New(func() {}, nil)
 	cfg := DefaultConfig()
@@ -267,7 +275,11 @@ func vc04StartEngine(t *testing.T, name string, sameAddr, auth bool, keysFile, a
 		cfg.Log = LogMetadataAndBodyLevel
 	}
 	e.config = cfg
-	if err := e.Configure(*core.NewServerConfig()); err != nil {
+	srvCfg := *core.NewServerConfig()
+	if vc04NextServerCfg != nil {
+		srvCfg, vc04NextServerCfg = *vc04NextServerCfg, nil
+	}
+	if err := e.Configure(srvCfg); err != nil {
 		t.Fatalf("configure %s: %v", name, err)
 	}
 	for _, r := range routes {
@@ -670,6 +682,59 @@ type vc04Op struct {
 	Tok    *vc04Tok        `json:"tok,omitempty"`
 	A      string          `json:"a,omitempty"`
 	B      string          `json:"b,omitempty"`
+	Strict bool            `json:"strict,omitempty"` // lim: core.ServerConfig.Strictmode
+	Flag   bool            `json:"flag,omitempty"`   // lim: core.ServerConfig.InternalRateLimiter
+	DM     []string        `json:"dm,omitempty"`     // lim: core.ServerConfig.DIDMethods
+	Calls  []vc04LimCall   `json:"calls,omitempty"`  // lim: (method, c.Path()) of the requests handed to the installed middleware
+}
+
+type vc04LimCall struct {
+	M string `json:"m"`
+	P string `json:"p"` // hex
+}
+
+// records what applyRateLimiterMiddleware installs
+type vc04RecRouter struct {
+	core.EchoRouter
+	mws []echo.MiddlewareFunc
+}
+
+func (r *vc04RecRouter) Use(m ...echo.MiddlewareFunc) { r.mws = append(r.mws, m...) }
+
+// the REAL applyRateLimiterMiddleware + the middleware it installs, driven in-process: wiring decision, skipper, bucket
+func vc04RunLim(op vc04Op) string {
+	rec := &vc04RecRouter{}
+	start := time.Now()
+	Engine{}.applyRateLimiterMiddleware(rec, core.ServerConfig{Strictmode: op.Strict, InternalRateLimiter: op.Flag, DIDMethods: op.DM})
+	if len(rec.mws) == 0 {
+		return "off"
+	}
+	if len(rec.mws) != 1 {
+		return fmt.Sprintf("installed-%d", len(rec.mws))
+	}
+	e := echo.New()
+	var out []string
+	for _, c := range op.Calls {
+		p, _ := hex.DecodeString(c.P)
+		req := httptest.NewRequest(c.M, "/", nil)
+		rr := httptest.NewRecorder()
+		ctx := e.NewContext(req, rr)
+		ctx.SetPath(string(p))
+		called := false
+		err := rec.mws[0](func(echo.Context) error { called = true; return nil })(ctx)
+		switch {
+		case err != nil:
+			out = append(out, "err")
+		case called:
+			out = append(out, "ok")
+		default:
+			out = append(out, strconv.Itoa(rr.Code))
+		}
+	}
+	if time.Since(start) > 20*time.Second { // a token drips in every 28.8 s: a stalled machine voids the leg, it never fails it
+		return "skipped"
+	}
+	return strings.Join(out, ",")
 }
 
 func TestVerifC04(t *testing.T) {
@@ -726,6 +791,17 @@ func TestVerifC04(t *testing.T) {
 		"F": vc04StartEngine(t, "F", false, true, keysFile, aud, vc04Routes),  // two listeners, token auth, http.log = metadata-and-body
 		"G": vc04StartEngine(t, "G", true, true, keysFile, aud, vc04Routes),   // one shared listener, token auth, http.log = metadata-and-body
 	}
+	// the rate limiter legs: H two listeners + token auth, I one shared listener + token auth, J two listeners WITHOUT auth
+	// (limiter installed: every request to a listed route uses the budget), K token auth with did:nuts disabled (no limiter)
+	engines["H"] = vc04StartEngine(t, "H", false, true, keysFile, aud, vc04Routes)
+	engines["I"] = vc04StartEngine(t, "I", true, true, keysFile, aud, vc04Routes)
+	engines["J"] = vc04StartEngine(t, "J", false, false, keysFile, aud, vc04Routes)
+	{
+		sc := *core.NewServerConfig()
+		sc.DIDMethods = []string{"web"}
+		vc04NextServerCfg = &sc
+		engines["K"] = vc04StartEngine(t, "K", false, true, keysFile, aud, vc04Routes)
+	}
 	defer func() {
 		for _, e := range engines {
 			e.shutdown()
@@ -754,11 +830,13 @@ func TestVerifC04(t *testing.T) {
 		Auth bool   `json:"auth"`
 		RS   string `json:"rs"`
 		Aud  string `json:"aud"`
+		Lim  bool   `json:"lim"`
 	}
 	cfg := map[string]interface{}{"op": "cfg", "routesets": map[string][]vc04Route{"std": vc04Routes, "rnd": rndRoutes},
 		"keys": []string{keys[0].comment, keys[1].comment}, "aud": aud, "now": now.Unix(),
-		"engines": map[string]engCfg{"A": {"i", "p", true, "std", aud}, "B": {"s", "s", true, "std", aud}, "C": {"i", "p", false, "std", aud},
-			"D": {"i", "p", true, "rnd", aud}, "E": {"i", "p", true, "std", hostname}, "F": {"i", "p", true, "std", aud}, "G": {"s", "s", true, "std", aud}}}
+		"engines": map[string]engCfg{"A": {"i", "p", true, "std", aud, true}, "B": {"s", "s", true, "std", aud, true}, "C": {"i", "p", false, "std", aud, true},
+			"D": {"i", "p", true, "rnd", aud, true}, "E": {"i", "p", true, "std", hostname, true}, "F": {"i", "p", true, "std", aud, true}, "G": {"s", "s", true, "std", aud, true},
+			"H": {"i", "p", true, "std", aud, true}, "I": {"s", "s", true, "std", aud, true}, "J": {"i", "p", false, "std", aud, true}, "K": {"i", "p", true, "std", aud, false}}}
 	emit(cfg, "cfg")
 
 	run := func(op vc04Op) string {
@@ -823,6 +901,10 @@ func TestVerifC04(t *testing.T) {
 				return "error"
 			}
 			return "ok"
+		case "lim":
+			return vc04RunLim(op)
+		case "skipped":
+			return "skipped"
 		case "matchesPath":
 			a, _ := hex.DecodeString(op.A)
 			b, _ := hex.DecodeString(op.B)
@@ -845,7 +927,7 @@ func TestVerifC04(t *testing.T) {
 				continue
 			}
 			var op vc04Op
-			if json.Unmarshal([]byte(line), &op) != nil || (op.Op != "req" && op.Op != "matchesPath" && op.Op != "bindOf" && op.Op != "configure" && op.Op != "overlap") {
+			if json.Unmarshal([]byte(line), &op) != nil || (op.Op != "req" && op.Op != "matchesPath" && op.Op != "bindOf" && op.Op != "configure" && op.Op != "overlap" && op.Op != "lim") {
 				continue
 			}
 			if op.Op == "req" { // credentials are regenerated (keys are fresh each run): look the kind up
@@ -914,6 +996,100 @@ func TestVerifC04(t *testing.T) {
 			op := vc04Op{Op: "req", Eng: en, Lis: "int", M: "POST", T: hex.EncodeToString([]byte(path)), Show: strconv.QuoteToASCII(path),
 				AuthOK: map[string]bool{}, Cred: c.kind, Hdr: c.hdr, Tok: &tk, Tag: "burst"}
 			emit(op, run(op))
+		}
+	}
+
+	// the internal rate limiter BEHIND the guard (engines H, I, J, K): a seeded mix of requests to listed routes (POST and PUT rows,
+	// a parameter in the middle, absolute-form targets, a 405 on a listed path, a route whose parameter is named differently) with
+	// valid and invalid credentials, more than the burst of 30. Failures never touch the budget; after the budget is gone
+	// failures are still 401 and unlisted routes are still served. A token drips in every 28.8 s: if a leg takes longer than
+	// 20 s (stalled machine) it is voided (ops become "skipped"), never failed.
+	for _, en := range []string{"H", "I", "J", "K"} {
+		type shot struct{ lis, m, target, cred string }
+		listed := []shot{{"int", "POST", "/internal/vdr/v1/did", ""}, {"int", "POST", "/internal/vcr/v2/issuer/vc", ""}, {"int", "PUT", "/internal/vdr/v1/did/did:nuts:abc", ""},
+			{"int", "POST", "/internal/didman/v1/did/did:nuts:x/endpoint", ""}, {"int", "POST", "http://verif.test/internal/vdr/v1/did", ""},
+			{"int", "POST", "/internal/vdr/v1/did?x=/public", ""}, {"int", "POST", "/internal/vdr/v2/subject", ""}}
+		unlisted := []shot{{"int", "GET", "/internal/x", ""}, {"int", "POST", "/internal/x/7", ""}, {"int", "POST", "/internal/vdr/v2/subject/s1/service", ""},
+			{"int", "DELETE", "/internal/vdr/v1/did/did:nuts:abc", ""}, {"int", "GET", "/internal/vdr/v2/subject", ""}, {"pub", "POST", "/internal/vdr/v1/did", ""},
+			{"pub", "POST", "/public", ""}, {"int", "POST", "/internal/vdr/v1/did/", ""}, {"int", "POST", "/internal/vdr/v1/DID", ""}, {"int", "PATCH", "/internal/vdr/v1/did", ""}}
+		good := []string{"valid0", "valid1", "valid-lowercase-scheme"}
+		bad := []string{"none", "garbage", "expired", "attacker-key", "wrong-audience", "basic-scheme"}
+		var legOps []vc04Op
+		var legOut []string
+		start := time.Now()
+		n := 78
+		for i := 0; i < n; i++ {
+			var sh shot
+			switch x := r.Intn(20); {
+			case x < 11:
+				sh = listed[r.Intn(len(listed))]
+				sh.cred = good[r.Intn(len(good))]
+			case x < 16:
+				sh = listed[r.Intn(len(listed))]
+				sh.cred = bad[r.Intn(len(bad))]
+			case x < 19:
+				sh = unlisted[r.Intn(len(unlisted))]
+				sh.cred = good[r.Intn(len(good))]
+			default:
+				sh = unlisted[r.Intn(len(unlisted))]
+				sh.cred = bad[r.Intn(len(bad))]
+			}
+			if i >= n-6 { // the tail, when the budget is gone: a failure, an unlisted route, a listed one
+				sh = []shot{listed[0], unlisted[0], listed[1], unlisted[1], listed[2], listed[0]}[i-(n-6)]
+				sh.cred = []string{"none", "valid0", "expired", "valid1", "attacker-key", "valid0"}[i-(n-6)]
+			}
+			if en == "I" && sh.lis == "pub" {
+				sh.lis = "int"
+			}
+			c, ok := credByKind[sh.cred]
+			if !ok {
+				c = credByKind["none"]
+			}
+			tk := c.tok
+			op := vc04Op{Op: "req", Eng: en, Lis: sh.lis, M: sh.m, T: hex.EncodeToString([]byte(sh.target)), Show: strconv.QuoteToASCII(sh.target),
+				AuthOK: vc04AuthorityVerdicts(sh.m, []byte(sh.target)), Cred: c.kind, Hdr: c.hdr, Tok: &tk, Tag: "lim"}
+			legOps = append(legOps, op)
+			legOut = append(legOut, run(op))
+		}
+		void := time.Since(start) > 20*time.Second
+		for i, op := range legOps {
+			if void {
+				emit(vc04Op{Op: "skipped", Eng: en, Tag: "lim"}, "skipped")
+			} else {
+				emit(op, legOut[i])
+			}
+		}
+	}
+
+	// in-process: the REAL applyRateLimiterMiddleware on every (strict mode, flag, DID methods) combination, and the middleware it
+	// installs on sequences of (method, c.Path()) longer than the burst: listed paths, near misses, other methods
+	{
+		dms := [][]string{nil, {"web"}, {"nuts"}, {"web", "nuts"}, {"NUTS"}, {"nuts "}, {"web", "did:nuts"}, {"nuts", "nuts"}}
+		paths := []string{"/internal/vcr/v2/issuer/vc", "/internal/vdr/v1/did", "/internal/vdr/v1/did/:did/verificationmethod", "/internal/didman/v1/did/:did/endpoint",
+			"/internal/didman/v1/did/:did/compoundservice", "/internal/vdr/v2/subject", "/internal/vdr/v2/subject/:id/service", "/internal/vdr/v2/subject/:id/service/:serviceId",
+			"/internal/vdr/v2/subject/:id/verificationmethod", "/internal/vdr/v1/did/:did", "/internal/didman/v1/did/:did/contactinfo",
+			"", "/", "/internal", "/internal/vdr/v1/did/", "/internal/vdr/v1/DID", "/internal/vdr/v1/did/:id", "/internal/vdr/v2/subject/:sid/service", "/public", "/internal/vdr/v1",
+			"/internal/vcr/v2/issuer/vc/:id", "internal/vdr/v1/did", "/internal/vdr/v2/subject/:id", "/internal/vdr/v1/did/*"}
+		ms := []string{"POST", "POST", "POST", "PUT", "PUT", "GET", "DELETE", "PATCH", "post", "OPTIONS"}
+		for _, strict := range []bool{false, true} {
+			for _, flag := range []bool{false, true} {
+				for _, dm := range dms {
+					op := vc04Op{Op: "lim", Strict: strict, Flag: flag, DM: dm}
+					for i, n := 0, 40+r.Intn(30); i < n; i++ {
+						p := paths[r.Intn(len(paths))]
+						if r.Intn(3) > 0 {
+							p = paths[r.Intn(11)]
+						}
+						m := ms[r.Intn(len(ms))]
+						if r.Intn(10) < 6 { // a listed (method, path) pair
+							k := r.Intn(11)
+							p, m = paths[k], map[bool]string{true: "POST", false: "PUT"}[k < 9]
+						}
+						op.Calls = append(op.Calls, vc04LimCall{M: m, P: hex.EncodeToString([]byte(p))})
+					}
+					emit(op, run(op))
+				}
+			}
 		}
 	}
 
